@@ -18,3 +18,7 @@ VARIANTS = [
     M('C14', 'refactor-prng-local-name', E(RX, "        prng_state = PRNGState(seed)   # the first sample is drawn here\n        try:\n            strings, _ = self.check_fn([], self.size.do_all)\n        finally:\n            prng_state.restore()", "        saved = PRNGState(seed)\n        try:\n            strings, _ = self.check_fn([], self.size.do_all)\n        finally:\n            saved.restore()"),
       kind='refactor'),
 ]
+
+VARIANTS += [
+    M('C14', 'seed-zero-treated-as-none', E(RX, "        if n is not None:\n            self.saved = random.getstate()", "        if n:\n            self.saved = random.getstate()"), rule='C14-RESTORE', key='seed-test'),
+]
